@@ -140,6 +140,7 @@ type Options struct {
 	DevBound     int         // max deviations (KDev); <0 = unbounded
 	PreemptBound int         // max preemptions (KSched); <0 = unbounded
 	Prune        bool        // visited-state pruning on points that carry a key
+	Root         []int       // fixed choices at the first points: only the subtree below them is explored
 	MaxExecs     int         // cap on executions (0 = none); hitting it clears Exhaustive
 	Deadline     func() bool // returns true when time is up
 }
@@ -259,6 +260,6 @@ func Explore(opt Options, body func(c *Ctx) bool) Stats {
 		}
 		return true
 	}
-	rec(nil)
+	rec(append([]int(nil), opt.Root...))
 	return st
 }
